@@ -1,5 +1,6 @@
 import NomtModel.Driver.CoreMode
 import NomtModel.Api.Exec
+import NomtModel.Api.Witness
 /-! `api` sub-protocol: the public-API state machine (`Api/Exec.lean`) over Blake3 nodes. -/
 namespace Nomt.Driver
 open Nomt Nomt.Api
@@ -12,8 +13,21 @@ def parseIds (s : String) : Option (List Nat) := (optList s ",").mapM (·.toNat?
 
 def showOptVH : Option ByteArray → String | some v => hexOfBytes v | none => "-"
 
+def showKVOpt (l : List (Key × Option ByteArray)) : String :=
+  if l.isEmpty then "-" else ",".intercalate (l.map (fun (k, v) => s!"{hexOfKey k}:{showOptVH v}"))
+
+def showWPath (w : WPath ByteArray ByteArray) : String :=
+  s!"{showBits w.path};{showTerminal w.proof.terminal};{showHexList w.proof.siblings};r={showKVOpt w.reads};w={showKVOpt w.writes}"
+
 def apiStep (s : ASt) (line : String) : ASt × String :=
   match fields line with
+  -- witness <fid> <read keys|->  : canonical specified witness of a finished session
+  | ["witness", fid, reads] =>
+    match fid.toNat?.bind (fun i => s.fins.find? (·.id == i)), (optList reads ",").mapM keyOfHex with
+    | some f, some rks =>
+      let ws := witnessFast HB (viewKV s f.chain) rks f.writes
+      (s, if ws.isEmpty then "-" else "#".intercalate (ws.map showWPath))
+    | _, _ => (s, "bad-op")
   | ["init", rb, maxlog] =>
     ({ root := zeros32, rollbackOn := rb == "1", maxLog := maxlog.toNat?.getD 100 }, "ok")
   | ["reopen"] => (s, s!"{hexOfBytes s.root} {s.seqn}")
